@@ -341,7 +341,7 @@ private:
           }
 
           template <typename Error>
-          void set_error(Error&& error) && noexcept {
+          void set_error(Error error) && noexcept {
             auto& op = op_;
             op.cleanupOp_.destruct();
 
